@@ -22,6 +22,8 @@ pub struct Case {
     pub depths: Vec<Vec<(u32, u32)>>,
     /// per thread: number of CPUs the OS thread is restricted to (0 = unrestricted)
     pub cpus: Vec<u32>,
+    /// seed of what the run's entropy seam (`getrandom`) hands to the library
+    pub entropy: u64,
 }
 
 impl Case {
@@ -42,6 +44,7 @@ impl Case {
             "switches": sim::switches_to_json(&self.switches),
             "clock_jumps": self.jumps.iter().map(|t| t.iter().map(|(k, a, b)| json!([k, a, b])).collect::<Vec<_>>()).collect::<Vec<_>>(),
             "cpu_limits": self.cpus,
+            "entropy_seed": self.entropy.to_string(),
             "stack_depths_kb": self.depths.iter().map(|t| t.iter().map(|(k, a)| json!([k, a])).collect::<Vec<_>>()).collect::<Vec<_>>(),
         })
     }
@@ -95,7 +98,8 @@ impl Case {
         depths.resize(threads.len(), Vec::new());
         let mut cpus: Vec<u32> = v.get("cpu_limits").and_then(|c| c.as_array()).map(|a| a.iter().map(|x| x.as_u64().unwrap_or(0) as u32).collect()).unwrap_or_default();
         cpus.resize(threads.len(), 0);
-        Some(Case { threads, churn, start, switches, jumps, depths, cpus })
+        let entropy = v.get("entropy_seed").and_then(|x| x.as_str()).and_then(|x| x.parse::<u64>().ok()).unwrap_or(0);
+        Some(Case { threads, churn, start, switches, jumps, depths, cpus, entropy })
     }
     pub fn from_spec(pool: &Pool, spec: &RunSpec, start: u32, switches: Vec<Sw>) -> Case {
         Case {
@@ -110,6 +114,7 @@ impl Case {
             jumps: spec.clock_jumps.clone(),
             depths: spec.stack_depths.clone(),
             cpus: spec.cpu_limits.clone(),
+            entropy: spec.seed,
         }
     }
 }
@@ -196,7 +201,7 @@ pub fn materialise(case: &Case, oc: &mut OracleCache) -> Option<(Pool, RunSpec)>
     let mut churn = case.churn.clone();
     churn.resize(clients.len(), Vec::new());
     let spec = RunSpec {
-        seed: 0,
+        seed: case.entropy,
         clients,
         churn,
         policy: Policy::Replay,
